@@ -350,6 +350,33 @@ def saturated_histories(mir):
     return cases
 
 
+def sequence_histories(mir):
+    """fixed, both tiers: the child collections of a document / network need not be lists - the constructors keep the sequence they
+    are given (NeuroMLDocument(iaf_cells=(c0, c1), networks=(net,)) writes and validates).  Four child members of three components
+    each, held in tuples (all / only the first two members) or deques: every component is looked up, then a missing id, then every
+    component again; each must be found."""
+    cases = []
+    for cls in ("NeuroMLDocument", "Network"):
+        if cls not in mir.C:
+            continue
+        own = [m for m in mir.C[cls]["mspecs"] if m["container"] and isinstance(m["type"], str) and m["type"] in mir.C
+               and "id" in mir.ctor_keywords(m["type"])][:4]
+        for label, kind in (("tuple", lambda j: "t"), ("tuple-and-list", lambda j: "t" if j < 2 else "l"), ("list-and-tuple", lambda j: "l" if j < 2 else "t"),
+                            ("deque", lambda j: "q")):
+            kw = [["id", {"s": "top"}]]
+            ids = []
+            for j, m in enumerate(own):
+                comps = []
+                for k in range(3):
+                    i = "%s_%d" % (m["name"], k)
+                    ids.append(i)
+                    comps.append({"cls": m["type"], "kw": [["id", {"s": i}]]})
+                kw.append([m["name"], {kind(j): comps}])
+            steps = [{"op": "lookup", "id": i} for i in ids] + [{"op": "lookup", "id": "missing"}] + [{"op": "lookup", "id": i} for i in reversed(ids)]
+            cases.append({"tree": {"cls": cls, "kw": kw}, "steps": steps, "mark": "sequence:" + label})
+    return cases
+
+
 def make_histories(ck, gen, mir, n):
     """histories on one document / network: look ups interleaved with edits of components that were looked up before"""
     rng = ck.rng
@@ -558,11 +585,33 @@ def run(ck):
     gen = gdsgen.Gen(T, ck.rng)
     sat = saturated_histories(mir)
     ck.extra["saturated_counter_histories"] = len(sat)
-    cases = sat + make_histories(ck, gen, mir, ck.n(30, 300)) + make_idcases(ck, gen, mir, ck.n(16, 200))
+    seqs = sequence_histories(mir)
+    ck.extra["child_sequence_histories"] = len(seqs)
+    cases = sat + seqs + make_histories(ck, gen, mir, ck.n(30, 300)) + make_idcases(ck, gen, mir, ck.n(16, 200))
     order = {c: T.field_order(c) for c in T.order}
     res = ck.impl("c11_impl.py", {"order": order, "classes": mir.order, "idcases": cases,
                                   "acceptance": {"names": {c: [m["name"] for m in mir.members(c)] for c in mir.order},
                                                  "exhaustive": ck.tier == "thorough"}}, timeout=1500)
+    ncls, ncase = 12, 10
+
+    def canon(o):
+        out = []
+        for r_ in o.get("classes", [])[:ncls]:
+            out.append([r_.get("cls"), r_.get("info"), sorted(r_.get("list") or []), sorted(r_.get("list_from_dict") or []), r_.get("parents"),
+                        r_.get("parent_list"), r_.get("sig"), r_.get("unused_kw"), r_.get("error")])
+        for r_ in o.get("idcases", [])[:ncase]:
+            out.append([[lk.get(k) for k in ("res", "found_id", "found", "msg", "wc", "wc_after", "new_keys", "doc_unchanged", "mutated")]
+                        for lk in r_.get("lookups", [])] + [r_.get("harness_error")])
+        for r_ in (o.get("acceptance") or [])[:ncls]:
+            out.append([r_.get("cls"), r_.get("members_refused"), r_.get("nonmembers_accepted_count"), r_.get("n_members"), r_.get("n_nonmembers")])
+        return out
+    c10.interpreter_configurations(
+        ck, "c11_impl.py", {"order": order, "classes": mir.order[:ncls], "idcases": cases[:ncase],
+                            "acceptance": {"names": {c: [m["name"] for m in mir.members(c)] for c in mir.order[:ncls]},
+                                           "exhaustive": ck.tier == "thorough"}},
+        {"classes": res["classes"][:ncls], "idcases": res["idcases"][:ncase], "acceptance": (res.get("acceptance") or [])[:ncls]}, canon,
+        lambda i: {"class": mir.order[i]} if i < ncls else ({"document": cases[i - ncls]["tree"], "steps": (cases[i - ncls].get("steps") or [])[:6]}
+                                                         if i < ncls + ncase else {"class": mir.order[i - ncls - ncase]}))
     ok_res = introspection(ck, mir, S, res)
     acceptance(ck, mir, res)
     info_diff(ck, ok_res)
